@@ -140,12 +140,24 @@ def wire_message(rng, tmpl, style):
     from hippolyzer.lib.base.message.udpdeserializer import UDPMessageDeserializer
     from hippolyzer.lib.base.settings import Settings
     from hippolyzer.lib.base.network.transport import Direction
-    counts = c12.gen_counts(rng, tmpl, var_counts=(0, 1, 1, 1, 2, 3))
+    ctx_case = style if isinstance(style, tuple) else None
+    if ctx_case:
+        style = "text"
+    counts = c12.gen_counts(rng, tmpl, var_counts=(1,) if ctx_case else (0, 1, 1, 1, 2, 3))
     msg = c12.build_message(rng, tmpl, counts, text_mode="bytes" if style == "bytes" else "text")
+    if ctx_case:
+        # a context-switched subfield: the sibling field(s) select the sub-template, the payload is the case's
+        _, bname, vname, ctx, payload = ctx_case
+        blk = msg.blocks[bname][0]
+        for k, v in ctx.items():
+            blk[k] = v
+        blk[vname] = payload
     for b in tmpl.blocks:
         for blk in msg.blocks[b.name]:
             for v in b.variables:
                 ty = c12.tyname(v)
+                if ctx_case and b.name == ctx_case[1] and blk is msg.blocks[b.name][0] and (v.name == ctx_case[2] or v.name in ctx_case[3]):
+                    continue
                 if ty == "Variable" and style == "pretty" and (tmpl.name, b.name, v.name) in se.SUBFIELD_SERIALIZERS:
                     n = rng.choice(_PAYLOAD_LENS)
                     blk[v.name] = bytes(n) if rng.random() < 0.6 else bytes(rng.randrange(256) for _ in range(n))
@@ -175,6 +187,138 @@ def wire_message(rng, tmpl, style):
     m = UDPMessageDeserializer(settings=settings).deserialize(wire)
     m.direction = rng.choice([Direction.IN, Direction.OUT])
     return m
+
+
+class _RecordingBlock:
+    """Stands in for a block while probing a serializer: records which sibling fields it asks for."""
+
+    def __init__(self, block):
+        self._b, self.asked = block, []
+
+    def __getitem__(self, k):
+        self.asked.append(k)
+        return self._b[k]
+
+    def get(self, k, default=None):
+        self.asked.append(k)
+        return self._b.get(k, default)
+
+    def __getattr__(self, k):
+        if k.startswith("_") or k in ("asked",):
+            raise AttributeError(k)
+        b = object.__getattribute__(self, "_b")
+        if k in b.vars:
+            self.asked.append(k)
+        return getattr(b, k)
+
+    def __contains__(self, k):
+        return k in self._b
+
+
+def _sibling_domain(se, tmpl, bname, field):
+    """Values of a context field worth distinguishing: the members of its registered enum / flag class if it has one."""
+    import enum
+    reg = se.SUBFIELD_SERIALIZERS.get((tmpl.name, bname, field))
+    cls = getattr(getattr(reg, "_adapter", None), "enum_cls", None) or getattr(getattr(reg, "_adapter", None), "flag_cls", None)
+    tv = tmpl.get_block(bname).get_variable(field)
+    lo, hi = c12.INT_RANGE.get(c12.tyname(tv), (0, 255))
+    if cls is not None and issubclass(cls, enum.IntFlag):
+        bits = sorted({int(m) for m in cls.__members__.values() if lo <= int(m) <= hi})
+        return [0] + bits[:8] + ([bits[0] | bits[-1]] if len(bits) > 1 else [])
+    if cls is not None:
+        vals = sorted({int(m) for m in cls.__members__.values() if lo <= int(m) <= hi})
+        unknown = next(v for v in range(hi, lo - 1, -1) if v not in vals)
+        return vals[:24] + [unknown]
+    return [v for v in (0, 1, 2, 3, 255) if lo <= v <= hi]
+
+
+_CTX_PAYLOADS = [b"", b"Ahern/128/128/25", b"Ahern/128/128/25\x00", "caf\u00e9 \u2603".encode("utf8"), b"\x01\x02\xff\x00\x10",
+                 b"\x00", bytes(4), bytes(16), bytes(17), bytes(32), bytes(48), b"\xff" * 16]
+
+
+def context_cases(rng, thorough):
+    """By reflection over the serializer registry: every subfield serializer whose reading depends on sibling fields of
+    its block (enum-switched, flag-switched, or found by probing which siblings it asks for), every value of that
+    context that selects a sub-template (plus one that selects none), and a few payload classes for the switched field:
+    empty, text without / with NUL, short binary, zeros, and payloads the selected sub-template itself produces."""
+    import hippolyzer.lib.base.templates  # noqa
+    import hippolyzer.lib.base.serialization as se
+    from hippolyzer.lib.base.message.message import Block
+    tmpls = {t.name: (i, t) for i, t in enumerate(c12.templates())}
+    cases, seen_regs = [], []
+    for (mname, bname, vname), ser in se.SUBFIELD_SERIALIZERS.items():
+        if mname not in tmpls:
+            continue
+        ti, tmpl = tmpls[mname]
+        try:
+            tvar = tmpl.get_block(bname).get_variable(vname)
+        except KeyError:
+            continue
+        is_bytes = c12.tyname(tvar) in ("Variable", "Fixed")
+
+        def fresh_block(ctx):
+            b = Block(bname)
+            b.message_name = mname
+            for v in tmpl.get_block(bname).variables:
+                b[v.name] = c12.gen_value(rng, v)
+            for k, v in ctx.items():
+                b[k] = v
+            return b
+        # --- which siblings select the sub-template, and with which values
+        ctxs = None
+        if isinstance(ser, type) and issubclass(ser, se.EnumSwitchedSubfieldSerializer):
+            keys = [int(k) for k in ser.TEMPLATES]
+            extra = [v for v in _sibling_domain(se, tmpl, bname, ser.ENUM_FIELD) if v not in keys][-1:]
+            ctxs = [{ser.ENUM_FIELD: v} for v in keys + extra]
+        elif isinstance(ser, type) and issubclass(ser, se.FlagSwitchedSubfieldSerializer):
+            bits = [int(k) for k in ser.TEMPLATES]
+            vals = sorted({sum(b for i, b in enumerate(bits) if m >> i & 1) for m in range(1 << min(len(bits), 5))})
+            ctxs = [{ser.FLAG_FIELD: v} for v in vals]
+        else:
+            asked = set()
+            for sample in ([b"", bytes(16), b"abc\x00"] if is_bytes else [0, 1, 255]):
+                rb = _RecordingBlock(fresh_block({}))
+                impl_call(ser.deserialize, rb, sample, pod=True)
+                asked |= {k for k in rb.asked if k != vname and k in tmpl.get_block(bname).variable_map}
+            if asked:
+                ctxs = [{}]
+                for field in sorted(asked)[:2]:
+                    ctxs = [dict(c, **{field: v}) for c in ctxs for v in _sibling_domain(se, tmpl, bname, field)][:48]
+        if not ctxs:
+            continue
+        seen_regs.append("%s.%s.%s" % (mname, bname, vname))
+        for ctx in ctxs:
+            if is_bytes:
+                maxlen = tvar.size if c12.tyname(tvar) == "Fixed" else (255 if tvar.size == 1 else 4000)
+                payloads = list(_CTX_PAYLOADS) + [bytes(rng.randrange(256) for _ in range(rng.choice([1, 3, 8, 20])))]
+                # payloads the selected sub-template itself produces: whatever it reads, written back by it
+                own = []
+                for raw in payloads + [bytes(n) + tail for tail in (b"Ab/1\x00", b"") for n in range(0, 81)]:
+                    if len(own) >= 12:
+                        break
+                    blk = fresh_block(ctx)
+                    st, val = impl_call(ser.deserialize, blk, raw, pod=False)
+                    if st == "ok" and val is not se.UNSERIALIZABLE:
+                        st, back = impl_call(ser.serialize, blk, val)
+                        if st == "ok" and isinstance(back, (bytes, bytearray)) and bytes(back) not in own:
+                            own.append(bytes(back))
+                own = own[:4 if not thorough else 12]
+                # ... and the same with the final terminator cut off (readers that accept end-of-buffer for a terminator)
+                payloads += own + [o[:-1] for o in own if o.endswith(b"\x00") and len(o) > 1]
+
+                def nan_free(raw):      # the domain is NaN-free: no payload whose decoded value holds a NaN
+                    st, pod = impl_call(ser.deserialize, fresh_block(ctx), raw, pod=True)
+                    return not (st == "ok" and re.search(r"\bnan\b", repr(pod)))
+                payloads = [p_ for p_ in payloads if nan_free(p_)]
+                if c12.tyname(tvar) == "Fixed":
+                    payloads = [p for p in payloads if len(p) == tvar.size] or [bytes(tvar.size)]
+                payloads = [p for p in dict.fromkeys(payloads) if len(p) <= maxlen]
+            else:
+                lo, hi = c12.INT_RANGE.get(c12.tyname(tvar), (0, 255))
+                payloads = [v for v in dict.fromkeys([0, 1, 2, 15, 16, 127, 255, lo, hi]) if lo <= v <= hi]
+            for p_ in payloads:
+                cases.append((ti, ("ctx", bname, vname, ctx, p_)))
+    return cases, seen_regs
 
 
 def _body(ser, m):
@@ -222,6 +366,12 @@ def classify_text(m, m2, tmpl, ev, beautify):
         return {"packed-needs-later-field"}
     if empty and (out == "ok" or "block after missing" in out or "encode" in out):
         classes.add("empty-variable-block")
+    if beautify and out.startswith(("ValueError: malformed node", "SyntaxError")):
+        # the printed pretty value itself is not a Python literal (a non-finite float inside the subfield's value)
+        nl = ["%s.%s.%s" % (m.name, b["name"], v["n"]) for b in ev["m"]["blocks"] for inst in b["inst"] for v in inst
+              if v["ser"] and v["pretty"] == "ok" and v["pvk"] in ("expr", "junk")]
+        if nl:
+            return {"pretty-subfield-not-literal@" + nl[0]}
     has_inf = any(isinstance(v, float) and math.isinf(v) for bl in m.blocks.values() for b in bl for v in b.vars.values())
     if has_inf and out.startswith("ValueError: malformed node or string"):
         return {"nonfinite-float"}
@@ -354,7 +504,10 @@ def _run_job(job_no):
             if bad:
                 cls = sorted(classify_text(m, m2, tmpl, ev, beautify))
             out.append((tid, ti, [ev], {"beautify": beautify, "repl": rp is not None, "cls": cls, "text": (text or "")[:1500],
-                                        "style": style, "lines": len(ev["toks"])}))
+                                        "style": style if isinstance(style, str) else "context %s.%s %r payload %r" % (
+                                            style[1], style[2], style[3], style[4] if not isinstance(style[4], bytes) else style[4][:40]),
+                                        "context": None if isinstance(style, str) else ",".join("%s=%s" % kv for kv in sorted(style[3].items())),
+                                        "lines": len(ev["toks"])}))
             if text:
                 texts.append(text)
         fz, fz_texts = [], []
@@ -412,6 +565,13 @@ def _texts(chk: Check, per_template, n_fuzz):
     for ti in range(len(tmpls)):
         for k in range(per_template):
             items.append((len(items), ti, chk.rng.getrandbits(48), styles[k % 3], n_fuzz if k == 0 else 0))
+    ctx_cases, ctx_regs = context_cases(random.Random(chk.rng.getrandbits(48)), chk.tier != "quick")
+    for ti, style in ctx_cases:
+        items.append((len(items), ti, chk.rng.getrandbits(48), style, 0))
+    chk.cov["context_switched_serializers"] = ctx_regs
+    chk.cov["context_switched_cases"] = len(ctx_cases)
+    if len(ctx_regs) < 5:
+        raise common.MachineryError("reflection found only %d context-switched subfield serializers: %r" % (len(ctx_regs), ctx_regs))
     _JOBS = common.chunked(items, common.NCPU * 2)
     res = [x for part in common.parallel_map(_run_job, list(range(len(_JOBS)))) for x in part]
     traces = [evs for _, _, evs, _ in res]
@@ -481,6 +641,8 @@ def _texts(chk: Check, per_template, n_fuzz):
             feats = {"kind": "human-text", "class": cls, "beautify": info["beautify"]}
             if field:
                 feats["field"] = field
+            if info.get("context"):
+                feats["context"] = info["context"]
             chk.violation("human text round trip (%s): %s" % ("beautified" if info["beautify"] else "plain", cls), feats,
                           {"message": tmpls[ti].name, "failed_clauses": sorted(clauses), "outcome": ev["outcome"], "text": info["text"],
                            "style": info["style"], "replacements": info["repl"]})
